@@ -10,6 +10,7 @@ import (
 	"strconv"
 	"strings"
 	"sync"
+	"sync/atomic"
 	"testing"
 	"time"
 
@@ -72,6 +73,9 @@ type result struct {
 	took     time.Duration
 }
 
+// lockQuery: every third caller sends a global lock query instead of a branch registration.
+func lockQuery(k int) bool { return k%3 == 2 }
+
 func parked() int {
 	buf := make([]byte, 1<<22)
 	n := runtime.Stack(buf, true)
@@ -94,9 +98,11 @@ func execute(c Case) *pt.Failure {
 	// the coordinator holds every BranchRegisterRequest; replies are driven by the schedule
 	tc.Sticky(message.MessageTypeBranchRegister, &faketc.Action{Kind: faketc.NoReply})
 	defer tc.Sticky(message.MessageTypeBranchRegister, nil)
+	tc.Sticky(message.GlobalLockQueryRequest{}.GetTypeCode(), &faketc.Action{Kind: faketc.NoReply})
+	defer tc.Sticky(message.GlobalLockQueryRequest{}.GetTypeCode(), nil)
 	f0, m0 := sgetty.PendingFuturesForVerif()
 	addr0 := sess.RemoteAddr()
-	active0 := rpc.GetStatus(addr0).GetActive()
+	active0 := atomic.LoadInt32(&rpc.GetStatus(addr0).Active)
 	if c.OnewayDrop {
 		tc.Script(message.RegisterTMRequest{}.GetTypeCode(), faketc.Action{Kind: faketc.NoReply})
 		extra := tc.OpenAt("10.9.9.9:8091")
@@ -124,13 +130,24 @@ func execute(c Case) *pt.Failure {
 		go func(k int) {
 			defer wg.Done()
 			t0 := time.Now()
-			resp, err := sgetty.GetGettyRemotingClient().SendSyncRequest(message.BranchRegisterRequest{
-				Xid: fmt.Sprintf("127.0.0.1:8091:%d", 7000+k), ResourceId: fmt.Sprintf("caller-%d", k), BranchType: branch.BranchTypeTCC})
+			reg := message.BranchRegisterRequest{Xid: fmt.Sprintf("127.0.0.1:8091:%d", 7000+k), ResourceId: fmt.Sprintf("caller-%d", k), BranchType: branch.BranchTypeTCC}
+			var req interface{} = reg
+			if lockQuery(k) {
+				// another request kind with its own reply type: a global lock query
+				req = message.GlobalLockQueryRequest{BranchRegisterRequest: reg}
+			}
+			resp, err := sgetty.GetGettyRemotingClient().SendSyncRequest(req)
 			r := result{err: err, took: time.Since(t0)}
-			if b, ok := resp.(message.BranchRegisterResponse); ok {
+			switch b := resp.(type) {
+			case message.BranchRegisterResponse:
 				r.branchID = b.BranchId
-			} else if err == nil {
-				r.err = fmt.Errorf("unexpected response %T", resp)
+			case message.GlobalLockQueryResponse:
+				// (in-process delivery: the reply object arrives as it was sent, Msg carries the identity)
+				fmt.Sscanf(b.Msg, "reply-%d", &r.branchID)
+			default:
+				if err == nil {
+					r.err = fmt.Errorf("unexpected response %T", resp)
+				}
 			}
 			results[k] = r
 		}(k)
@@ -140,9 +157,20 @@ func execute(c Case) *pt.Failure {
 	deadline := time.Now().Add(5 * time.Second)
 	for len(ids) < c.N && time.Now().Before(deadline) {
 		for _, e := range tc.Events() {
-			if b, ok := e.Body.(message.BranchRegisterRequest); ok && e.Dir == "c2s" {
-				var k int
-				fmt.Sscanf(b.ResourceId, "caller-%d", &k)
+			if e.Dir != "c2s" {
+				continue
+			}
+			var rid string
+			switch b := e.Body.(type) {
+			case message.BranchRegisterRequest:
+				rid = b.ResourceId
+			case message.GlobalLockQueryRequest:
+				rid = b.ResourceId
+			default:
+				continue
+			}
+			var k int
+			if n, _ := fmt.Sscanf(rid, "caller-%d", &k); n == 1 {
 				ids[k] = e.ID
 			}
 		}
@@ -163,6 +191,10 @@ func execute(c Case) *pt.Failure {
 		tc.Lose(sess)
 	}
 	reply := func(k int) message.RpcMessage {
+		if lockQuery(k) {
+			return message.RpcMessage{ID: ids[k], Type: message.GettyRequestTypeResponse, Codec: 1,
+				Body: message.GlobalLockQueryResponse{AbstractTransactionResponse: message.AbstractTransactionResponse{AbstractResultMessage: message.AbstractResultMessage{ResultCode: message.ResultCodeSuccess, Msg: fmt.Sprintf("reply-%d", bidBase+k)}}, Lockable: true}}
+		}
 		return message.RpcMessage{ID: ids[k], Type: message.GettyRequestTypeResponse, Codec: 1,
 			Body: message.BranchRegisterResponse{AbstractTransactionResponse: message.AbstractTransactionResponse{AbstractResultMessage: message.AbstractResultMessage{ResultCode: message.ResultCodeSuccess}}, BranchId: bidBase + int64(k)}}
 	}
@@ -247,10 +279,10 @@ func execute(c Case) *pt.Failure {
 		return pt.Failf(what, "bookkeeping left behind: futures %d→%d, merged %d→%d", f0, f1, m0, m1)
 	}
 	// the per-coordinator count of requests in flight (what the least-active policy reads) is bookkeeping too
-	active1 := rpc.GetStatus(addr0).GetActive()
+	active1 := atomic.LoadInt32(&rpc.GetStatus(addr0).Active)
 	for i := 0; i < 100 && active1 != active0; i++ {
 		time.Sleep(10 * time.Millisecond)
-		active1 = rpc.GetStatus(addr0).GetActive()
+		active1 = atomic.LoadInt32(&rpc.GetStatus(addr0).Active)
 	}
 	if active1 != active0 {
 		return pt.Failf("C14/bookkeeping-leak/active-count", "requests counted as in flight on %s: %d before the schedule, %d after every caller has returned", addr0, active0, active1)
